@@ -251,6 +251,8 @@ def agg_spec(rng: random.Random, name: str, maxlen: int = 8) -> dict:
         else:
             n = rng.randint(0, maxlen)
             spec["srcs"] = [[[rng.randrange(3), rng.randrange(5)] for _ in range(n)]]
+        if rng.random() < 0.3:
+            spec["params"]["kwargs"] = {name: rng.randrange(5) for name in rng.sample(["a", "b", "c"], rng.randint(1, 2))}
         return spec
     if name == "sorted":
         if cls in ("items", "inexact", "exact"):
